@@ -73,6 +73,84 @@ CHECKS = {
         technique="TLA+ MintAPI balances/limits + TLC trace validation",
         text=SEQ + "Issued/redeemed per keyset, balance and info.disabled are queried after every step and compared by TLC with sums over the spec state.",
         note=TRUST),
+    "C04": dict(
+        category="model_checking", design_ref="§5 C04",
+        technique="TLA+ case space ProofGate.tla enumerated by TLC, each case replayed on a real three-keyset mint and judged by MintAPI (TLC trace validation)",
+        text="TLC enumerates (keyset x amount x single-field mutation x endpoint x position) - quick: a slice of 600, thorough: all 2400 cases; "
+             "each is one swap/melt request with a mint-signed proof mutated in exactly one field (real BDHKE by the harness); MintAPI's "
+             "InCauses decides genuine/forged from provenance facts and TLC compares with the real verdict; honest variants must be accepted.",
+        note=TRUST + " One representative concretisation per mutation class."),
+    "C08": dict(
+        category="model_checking", design_ref="§5 C08",
+        technique="TLA+ Wallet.tla per-request conditions (ReqTags) checked by TLC on recorded traces of every wallet flow",
+        text="TLC-generated wallet histories (mint, send with/without swap, P2PK send/receive, receive of tokens with DLEQ, melt with NUT-08 blank "
+             "outputs, reclaim, mint-to-mint swap, restore) are replayed with real wallets; the interposed transport scans every request body "
+             "(raw bytes and decoded JSON) for every blinding factor known to the harness (stored proofs, NUT-13 table) and for output secrets; "
+             "TLC validates the per-request facts. Coverage = every request of every flow executed, listed per endpoint in the evidence.",
+        note="The harness's table recognises deterministic outputs for counters below 160 per keyset; random (locked) outputs' blinding factors are "
+             "known only once stored in a proof."),
+    "C10": dict(
+        category="other", design_ref="§5 C10",
+        technique="TLA+ Bdhke.tla over ECPrim (Java module overrides) evaluated by TLC as reference on logged Go results; BdhkeToy.tla model-checked exhaustively",
+        text="Spec-as-reference differential: Blind/Sign/Unblind/Verify/HashE/DLEQ of the Go code on edge + sampled inputs, every DLEQ a real mint "
+             "emits, stores and returns after restart, wallet-style (e,s,r) proofs and a single-field tamper table are recomputed by TLC from "
+             "the TLA+ definitions; the algebraic identities are checked for all values in toy groups Z_q.",
+        note="Inputs sampled, not exhaustive; ECPrim.java (JDK SHA-256/HMAC/BigInteger + ~100 lines of curve arithmetic) is trusted, self-tested against published vectors."),
+    "C11": dict(
+        category="other", design_ref="§5 C11",
+        technique="TLA+ Derive.tla (hash_to_curve, keyset id, BIP32, NUT-13) over ECPrim evaluated by TLC on every logged Go output",
+        text="Spec-as-reference differential written from NUT-00/02/13 and BIP32 only: messages incl. several counter iterations, arbitrary key sets, "
+             "real mint keysets, (seed, keyset id, counter) triples incl. ids with high bits and counters up to 2^31-1; compared bit for bit.",
+        note="Inputs sampled (seeded) plus edge classes; ECPrim.java trusted as above; the NUT-00/BIP32/NUT-13 vectors are ASSUMEs of the spec."),
+    "C12": dict(
+        category="model_checking", design_ref="§5 C12",
+        technique="TLA+ decision spec Locks.tla: TLC enumerates the case table and computes the verdict region; cases concretised on nut11 and the real mint; TLC validates",
+        text="Finite table enumerated completely (quick: 23k cases with curated witnesses, thorough: all witnesses up to length 3): lock config x witness "
+             "x position x output-signature class, with MustAccept / MustReject / DontCare regions; concretised with real Schnorr keys through "
+             "nut11.VerifyP2PKLockedProof and Mint.Swap / MeltTokens on mint-signed proofs.",
+        note="btcec Schnorr is trusted to build witnesses; lock times are +-hours around now."),
+    "C13": dict(
+        category="model_checking", design_ref="§5 C13",
+        technique="TLA+ decision spec Locks.tla (HTLC part), same machinery incl. helper-produced witnesses",
+        text="HTLC table (hash form x preimage class x n_sigs x pubkeys x locktime x refund x sigflag x witness) enumerated by TLC, concretised through "
+             "nut14.VerifyHTLCProof and the real mint, incl. AddWitnessHTLC / AddWitnessHTLCToOutputs witnesses.",
+        note="as C12"),
+    "C14": dict(
+        category="exploration", design_ref="§5 C14",
+        technique="TLA+ Token.tla (codec law + decoder input classes) enumerated by TLC, concretised on the real codecs, validated by TLC",
+        text="Round-trip shapes (sizes 0..40, 1..4 keysets, secret classes, witness, DLEQ none/partial/complete, amounts incl. 2^63, non-hex C/id, V3/V4, "
+             "includeDLEQ) with the law roundtrip / fail / dontcare; decoder classes concretised into tens of thousands of strings (every truncation "
+             "and byte mutation of valid tokens, lengths 0..8, hand-built JSON/CBOR, random base64).",
+        note="The string space is covered by classes, not by all strings."),
+    "C17": dict(
+        category="model_checking", design_ref="§5 C17",
+        technique="TLA+ Wallet.tla invariants and step conditions checked by TLC on traces of TLC-generated wallet histories replayed with real wallets and mints",
+        text="Histories over 3 wallets, 2 mints, fees {0,100,1000}: mint, send +-fees, P2PK send, receive same-mint / swap-to-trusted, melt with success / "
+             "failure / pending-then-resolved, reclaim, remove-spent, mint-swap, rotation, restore. After every operation TLC checks on the "
+             "projection: balance = spendable = unspent at mint, pending exact, no proof twice, and per mint: mint balance = live holdings "
+             "(no value lost, none conjured).",
+        note="Honest mints (real code) + Lightning model; projection through the wallet store and the mint store."),
+    "C18": dict(
+        category="model_checking", design_ref="§5 C18",
+        technique="TLA+ SendCases.tla enumerated by TLC (wallet content x amount x fee x includeFees), replayed with real wallets; Wallet!SendStep/ReceiveStep checked by TLC",
+        text="quick: a seeded 1/23 slice (~3.9k sends), thorough: the whole bounded space (~90k sends): contents of up to 3 proofs over 1..32 on the active "
+             "keyset plus optionally one on an inactive keyset, every amount, fees {0,100,250,500,1000,2000}; a real recipient redeems. Checked: "
+             "exact value (+ fee of those very proofs), distinct, unspent, removed from spendable, recipient nets, and liveness within balance - fees.",
+        note="Wallet content injected into the wallet store as genuine proofs (hook); SentFee in Wallet.tla defines the fee of a fee-inclusive send."),
+    "C19": dict(
+        category="model_checking", design_ref="§5 C19",
+        technique="TLA+ Wallet.tla counter discipline (per-request) and RestoreStep checked by TLC on recorded wallet histories",
+        text="The transport maps every submitted B_ to its (wallet, keyset, counter); TLC checks that no signed counter is submitted again, that the "
+             "stored counter is past every signed one after every operation, and that a restore (also of a restored wallet) recovers exactly "
+             "the live deterministic outputs of the seed.",
+        note="Quick histories are short; the >300-output and crash-point parts are in the thorough tier (see DESIGN.md)."),
+    "C20": dict(
+        category="model_checking", design_ref="§5 C20",
+        technique="TLA+ Http.tla (status/shape/error-code table driven by MintAPI's causes, NUT-19 cache) checked by TLC on traces driven through the real handler with hand-built JSON",
+        text="MintAPI histories run entirely through the HTTP handler with JSON built by hand; TLC checks status <=> decision, 400 bodies exactly "
+             "{detail, code} with a code naming a cause that actually holds, NUT shapes of 200 bodies (hand-written predicate), keys/info shapes "
+             "after rotations, identical replays served from cache without storage calls, near-replays never; plus malformed requests.",
+        note=TRUST),
 }
 
 NOT_YET = {
